@@ -88,13 +88,15 @@ func main() {
 	}
 	wg.Wait()
 	contentSweep(r)
+	idSweep(r)
 	serverInitiated(r)
-	r.Finish("per server configuration: every valid request of the standard fixture, then structural mutations (params and each parameter removed / retyped to every JSON type / extra / duplicated; envelope members removed / retyped / duplicated; notifications; responses never asked for; non-object and unparsable bodies; deep and large values; HTTP-level wrong path / verb / headers / session id; thorough adds truncation at every offset, bit flips, random bytes) x handler outcomes {value, error, unencodable, isError, nil content}; every frame written back is validated by the hand-written JSON-RPC/MCP oracle and the answer class compared with the reference classifier. A second sweep repeats the handshake, every list method and read/get/call on registries other than the standard fixture (nothing registered, tools registered and all unregistered again, only a template, one bare tool / prompt / resource with every optional member left out, the standard fixture filtered down to an empty and to a nil list). A content sweep (content.go) keeps the structure fixed and varies the TEXT: a catalogue of texts (percent signs in every position and printf verbs of every form, backslashes and quotes, texts that look like escapes, control characters, CR / LF / CRLF / U+2028 / U+2029 / NEL, texts that look like SSE fields or whole injected events, JSON- and JSON-RPC-looking texts, HTML, Unicode edge cases, white space, the empty string, very long texts, Go strings that are not valid UTF-8, seeded random compositions; from the peer additionally the same literal spelt with \\uXXXX escapes / Go's escaping, lone surrogate escapes, raw invalid UTF-8, raw control characters and invalid escapes) x every place where text flows into an answer (string ids of answered, failed and refused requests; unknown method / tool / prompt / resource names and URIs; tool result, isError, structured content (values and member names), embedded resource, prompt description and messages, resource text / mime type / blob, handler errors plain and wrapped, each once handed in by the peer as an argument and once held by the application; initialize parameters; in a second registry the texts as names, descriptions, argument names, URIs and mime types of registered tools / prompts / resources (list results, and every entry called by its name in every spelling) and as the server's own name and version) x all seven configurations: every frame must be one well-formed JSON-RPC message of the class the reference classifier expects, bear the request's id as the same JSON value, carry the handler's message in a -32603 error and, in a result, exactly the texts the handler returned (the handler records them). The same texts travel, behind a marker naming them, as values, member names, array elements and nested members in the params of every server-initiated frame of the third sweep, as progress and log messages of the in-call sender and inside caller-given string ids of server-issued requests. A third sweep (initiated.go) judges every frame a server writes on its own initiative: on stateful Streamable servers the listening stream opened fresh, resumed with the last event id seen after the previous stream was closed, superseding an open stream with and without Last-Event-ID, resumed with event ids never issued (odd header values; thorough: a random walk over these), each with every sender API driven against it (Server.SendNotification / BroadcastNotification / SendFilteredNotification with nil, empty, flat, nested, _meta-carrying and seeded random params; Server.SendRequest with generated, numeric and string ids, without and with object / array params; ListRoots, SendNotification and SendRequest from a tool handler and from a notification handler; registrations changing while the stream is open) plus whatever the server writes there by itself (the resumption notice); the POST event stream with every in-call sender method on stateful, stateless and session-less servers; the legacy SSE session stream (endpoint event and keep-alive comments skipped, every other event judged) with SSEServer.SendNotification / SendRequest / ListRoots / the session's notification channel; every stdout line of the stdio server with StdioServer.SendRequest / ListRoots / the session's notification and message channels. Distinct = (configuration, [registry,] request class, answer class) that conformed, for the content sweep (configuration, flow, text class incl. spelling, answer class) that conformed, and for the third sweep (configuration, stream kind, origin API, frame kind) of frames that conformed; a run that saw no frame on a resumed listening stream is a harness error, one that saw only API frames there is inconclusive.",
+	r.Finish("per server configuration: every valid request of the standard fixture, then structural mutations (params and each parameter removed / retyped to every JSON type / extra / duplicated; envelope members removed / retyped / duplicated; notifications; responses never asked for; non-object and unparsable bodies; deep and large values; HTTP-level wrong path / verb / headers / session id; thorough adds truncation at every offset, bit flips, random bytes) x handler outcomes {value, error, unencodable, isError, nil content}; every frame written back is validated by the hand-written JSON-RPC/MCP oracle and the answer class compared with the reference classifier. A second sweep repeats the handshake, every list method and read/get/call on registries other than the standard fixture (nothing registered, tools registered and all unregistered again, only a template, one bare tool / prompt / resource with every optional member left out, the standard fixture filtered down to an empty and to a nil list). A content sweep (content.go) keeps the structure fixed and varies the TEXT: a catalogue of texts (percent signs in every position and printf verbs of every form, backslashes and quotes, texts that look like escapes, control characters, CR / LF / CRLF / U+2028 / U+2029 / NEL, texts that look like SSE fields or whole injected events, JSON- and JSON-RPC-looking texts, HTML, Unicode edge cases, white space, the empty string, very long texts, Go strings that are not valid UTF-8, seeded random compositions; from the peer additionally the same literal spelt with \\uXXXX escapes / Go's escaping, lone surrogate escapes, raw invalid UTF-8, raw control characters and invalid escapes) x every place where text flows into an answer (string ids of answered, failed and refused requests; unknown method / tool / prompt / resource names and URIs; tool result, isError, structured content (values and member names), embedded resource, prompt description and messages, resource text / mime type / blob, handler errors plain and wrapped, each once handed in by the peer as an argument and once held by the application; initialize parameters; in a second registry the texts as names, descriptions, argument names, URIs and mime types of registered tools / prompts / resources (list results, and every entry called by its name in every spelling) and as the server's own name and version) x all seven configurations: every frame must be one well-formed JSON-RPC message of the class the reference classifier expects, bear the request's id as the same JSON value, carry the handler's message in a -32603 error and, in a result, exactly the texts the handler returned (the handler records them). The same texts travel, behind a marker naming them, as values, member names, array elements and nested members in the params of every server-initiated frame of the third sweep, as progress and log messages of the in-call sender and inside caller-given string ids of server-issued requests. A third sweep (initiated.go) judges every frame a server writes on its own initiative: on stateful Streamable servers the listening stream opened fresh, resumed with the last event id seen after the previous stream was closed, superseding an open stream with and without Last-Event-ID, resumed with event ids never issued (odd header values; thorough: a random walk over these), each with every sender API driven against it (Server.SendNotification / BroadcastNotification / SendFilteredNotification with nil, empty, flat, nested, _meta-carrying and seeded random params; Server.SendRequest with generated, numeric and string ids, without and with object / array params; ListRoots, SendNotification and SendRequest from a tool handler and from a notification handler; registrations changing while the stream is open) plus whatever the server writes there by itself (the resumption notice); the POST event stream with every in-call sender method on stateful, stateless and session-less servers; the legacy SSE session stream (endpoint event and keep-alive comments skipped, every other event judged) with SSEServer.SendNotification / SendRequest / ListRoots / the session's notification channel; every stdout line of the stdio server with StdioServer.SendRequest / ListRoots / the session's notification and message channels. A fourth sweep (ids.go) keeps structure and texts fixed and varies the request's ID over the JSON number and string space (zero and negative zero, small integers, integers at and around +-2^31, 2^32, 2^53, 2^63, 2^64, 2^100, 2^128, 1e19 .. 1e23, 1e100, 1e308, numbers beyond the double range, fractions, every exponent / decimal-point spelling of integers, digit strings of 40 to 400 digits, seeded random numbers; strings that look like numbers, the empty string, white space, very long strings) x {ping, tools/list, tools/call with a result / an isError result / a failing handler / a wrong params shape / an unknown tool, prompts/get, resources/read, unknown method, initialize} x all seven configurations: the answer must be of the class the reference classifier expects and bear the request's id, compared as a JSON value computed from the raw text of both with math/big. Distinct = (configuration, [registry,] request class, answer class) that conformed, for the id sweep (configuration, request class, id class, answer class) that conformed, for the content sweep (configuration, flow, text class incl. spelling, answer class) that conformed, and for the third sweep (configuration, stream kind, origin API, frame kind) of frames that conformed; a run that saw no frame on a resumed listening stream is a harness error, one that saw only API frames there is inconclusive.",
 		[]string{"the hand-written validators in lib/wire are the trusted base (the official schema file is not in the sandbox)",
 			"where the statement fixes no code (unknown tool/prompt/resource) -32601 and -32602 are both accepted; ignorable optional parameters may be served or refused",
 			"a missing answer on stdio / legacy SSE is confirmed by a second post with a 3 s wait before it counts",
 			"server-initiated frames are attributed to the API call that caused them by a method name unique to the call; a frame that never shows up is counted (initiated_frames_expected vs _seen), not reported: delivery is not C03's subject",
 			"content sweep: an ill-formed string literal (lone surrogate escape, raw invalid UTF-8, raw control character, invalid escape) may be refused or served; when served, ids and texts are compared after decoding and a difference is counted, not reported. A Go string that is not valid UTF-8 cannot travel unchanged in JSON: only the well-formedness of the frame is judged. A list may leave entries out, but what it lists must have been registered. A request of the content sweep that stays unanswered while a ping sent 10 s later is answered is reported; when the ping stays unanswered too the run is inconclusive; either way the rest of that configuration's sweep is not run",
 			"that a result carries the texts the handler returned is read out of 'every message ... in reaction to any input is one valid ... object ... for its kind' together with 'the request's id' and 'the handler's message': the message written is the handler's outcome, not something else that happens to be schema-valid",
+			"id sweep: JSON leaves the precision of numbers to the receiver (RFC 8259 section 6), so an answer whose number rounds to the same IEEE double as the request's counts as the request's id (counted apart: ids_nearest_double); any other number, a number for a string or a string for a number does not. Only integers of magnitude <= 2^53 and non-empty strings must be served; any other id may be refused (non-2xx, or an error object which, when of class -32600 / -32700, may bear a null id), but when it is answered the answer bears it",
 			"request params are handed to SendRequest as an untyped nil, an object or an array; a typed nil map inside the interface (encoded as \"params\":null) is treated as a caller error and not exercised"})
 }
